@@ -280,17 +280,23 @@ struct SyncModel {
   // it (used only to aim ADVDL / DRAIN at the interesting instants). dueMax: the liveness bound (rule 5) - the
   // statement promises "a bounded time" and names no schedule, so the bound is one full largest period after the
   // event that started the wait, whichever of the admissible schedules the machine follows.
-  int64_t dueMin = INT64_MIN / 4, dueExpect = 0, dueMax = 0, start = 0;
+  // dueMax is measured in POLLED time (`polled`): simulated milliseconds that went by in poll gaps of at most
+  // 64,536 ms, the premise under which the clock itself keeps time (C13). A machine that times its waits on its own
+  // clock's seconds is as bounded as one that uses millis(), but no machine can be held to a deadline that passed
+  // while nobody called it.
+  int64_t dueMin = INT64_MIN / 4, dueExpect = 0, dueMax = 0, start = 0, polled = 0;
   int overdue = 0, unread = 0, failStreak = 0;
   uint64_t requests = 0, successes = 0, failures = 0;
 
   void boot(const SyncCfg& c, int64_t now) {
     cfg = c; C.clear(); C.insert(c.init);
     if (c.init > c.sync) C.insert(c.sync);   // "up to the sync period": a machine may clamp the initial period at once
-    phase = IDLE; after = BOOT; dueMin = INT64_MIN / 4; dueExpect = now; dueMax = now + maxPeriodMs();
+    phase = IDLE; after = BOOT; dueMin = INT64_MIN / 4; dueExpect = now; dueMax = polled + maxPeriodMs();
     overdue = unread = failStreak = 0;
   }
-  int64_t maxPeriodMs() const { return (int64_t)(cfg.init > cfg.sync ? cfg.init : cfg.sync) * 1000; }
+  // one largest period, plus one second: a machine that waits on whole seconds of its own clock (whose sub-second
+  // phase is arbitrary) is up to 999 ms later than one that waits on milliseconds, and just as bounded
+  int64_t maxPeriodMs() const { return (int64_t)(cfg.init > cfg.sync ? cfg.init : cfg.sync) * 1000 + 1000; }
   uint32_t minC() const { return *C.begin(); }
   uint32_t maxC() const { return *C.rbegin(); }
   void advanceC() {
@@ -308,7 +314,7 @@ struct SyncModel {
     phase = IDLE; after = FAILURE;
     dueMin = start + P * 1000;
     dueExpect = f > dm ? f : dm;
-    dueMax = f + maxPeriodMs();
+    dueMax = polled + maxPeriodMs();
     advanceC();
     overdue = 0; failStreak++; failures++;
   }
@@ -319,7 +325,7 @@ struct SyncModel {
       if (readyAt < t) t = readyAt;
       return t;
     }
-    return now <= dueExpect + 2 ? dueExpect : dueMax;
+    return now <= dueExpect + 2 ? dueExpect : now + (dueMax > polled ? dueMax - polled : 0);
   }
 };
 
